@@ -80,6 +80,9 @@ type RunSpec struct {
 	Ctx      context.Context
 	SyncFunc func(int) error
 	WorkDir  string
+	// NoCapture: the program's output goes to /dev/null and the call does not wait for the end of the output
+	// (processes the program left behind keep the pipe open until they are gone)
+	NoCapture bool
 }
 
 var bigLimit = runner.Limit{TimeLimit: time.Hour, MemoryLimit: runner.Size(1 << 40)}
@@ -209,9 +212,21 @@ func (e *Env) runProbe(s RunSpec, syncAfter bool) (runner.Result, string) {
 	defer cancel()
 	pf := openProbe()
 	defer pf.Close()
-	out := newCapture()
 	devnull, _ := os.Open(os.DevNull)
 	defer devnull.Close()
+	if s.NoCapture {
+		return e.Execve(ctx, container.ExecveParam{
+			Args:          []string{"/bin/true", s.Script},
+			Env:           []string{"PATH=/usr/bin:/bin"},
+			Files:         []uintptr{devnull.Fd(), devnull.Fd(), devnull.Fd()},
+			ExecFile:      pf.Fd(),
+			RLimits:       s.RLimits,
+			Seccomp:       s.Filter,
+			SyncFunc:      s.SyncFunc,
+			SyncAfterExec: syncAfter,
+		}), ""
+	}
+	out := newCapture()
 	res := e.Execve(ctx, container.ExecveParam{
 		Args:          []string{"/bin/true", s.Script},
 		Env:           []string{"PATH=/usr/bin:/bin"},
